@@ -541,6 +541,8 @@ pub fn assemble(d: &FDwarf) -> Assembled {
                                 (secoff_form, 0, AV::U(loc_offs[ui][*li]))
                             }
                         }
+                        // gcc emits DW_AT_decl_file as DW_FORM_implicit_const in DWARF 5
+                        FVal::FileIndex(f, x) if *f == F_IMPLICIT_CONST => (F_IMPLICIT_CONST, *x as i64, AV::Nothing),
                         FVal::FileIndex(f, x) => (*f, 0, AV::U(*x)),
                         FVal::RefSig8(x) => (F_REF_SIG8, 0, AV::U(*x)),
                     };
@@ -732,6 +734,11 @@ pub fn gen_fdwarf(ch: &mut Choices, o: &GenOpts) -> FDwarf {
             h.file_format = vec![(1, 0x08), (2, 0x0f)];
             let nf = 2 + ch.below(3);
             h.files = (0..nf).map(|i| crate::linemodel::FileSpec { path: crate::linemodel::PathVal::Inline(vec![b'f', b'0' + i as u8]), dir: ch.below(2) as u64, mtime: 0, size: 0, md5: [0; 16], source: None }).collect();
+            // compilers repeat the primary source file as file 0 and file 1 in DWARF 5: the writer folds them into
+            // one entry, so every later file index changes
+            if version >= 5 && ch.chance(128) {
+                h.files[1] = h.files[0].clone();
+            }
             let mut ops = Vec::new();
             if ch.chance(200) {
                 ops.push(LOp::SetAddress(0x2000, 0));
@@ -797,7 +804,7 @@ pub fn gen_fdwarf(ch: &mut Choices, o: &GenOpts) -> FDwarf {
                     2 | 3 | 4 => (ch.pick(&[0x49u16, 0x49, 0x31, 0x47, 0x1d]), gen_ref(ch)),
                     5 => (0x11, FVal::Addr(0x4000 + ch.below(64) as u64 * 0x10, if ch.chance(100) { Some(if version >= 5 { ch.pick(&[F_ADDRX, F_ADDRX1, F_ADDRX2, F_ADDRX4]) } else { F_GNU_ADDR_INDEX }) } else { None })),
                     6 => (0x12, FVal::Const(ch.pick(&[F_DATA1, F_DATA2, F_DATA4, F_DATA8, F_UDATA]), 1 + ch.below(200) as u64)),
-                    7 if nfiles > 0 => (ch.pick(&[0x3au16, 0x58]), FVal::FileIndex(ch.pick(&[F_DATA1, F_UDATA, F_DATA2]), if version >= 5 { ch.below(nfiles) as u64 } else { ch.below(nfiles + 1) as u64 })),
+                    7 if nfiles > 0 => (ch.pick(&[0x3au16, 0x58]), FVal::FileIndex(if version >= 5 && ch.chance(90) { F_IMPLICIT_CONST } else { ch.pick(&[F_DATA1, F_UDATA, F_DATA2]) }, if version >= 5 { ch.below(nfiles) as u64 } else { ch.below(nfiles + 1) as u64 })),
                     8 => (0x3b, FVal::Const(ch.pick(&[F_DATA1, F_DATA2, F_UDATA, F_SDATA]), ch.below(120) as u64)),
                     9 | 10 => {
                         let ops = gen_ref_expr(ch, &cfg, ui, &mut same, &mut any, 0);
